@@ -189,6 +189,14 @@ func ws(b *bytes.Buffer, r *rng.R, st style) {
 }
 
 func writeStr(b *bytes.Buffer, s string, r *rng.R, st style) {
+	start := b.Len() + 1
+	defer func() {
+		raw := string(b.Bytes()[start : b.Len()-1])
+		if len(raw) <= 400 && !srcSeen[raw] && len(srcLits) < litLimit {
+			srcSeen[raw] = true
+			srcLits = append(srcLits, litPair{raw, s, "generator"})
+		}
+	}()
 	b.WriteByte('"')
 	for _, c := range s {
 		if c == utf8.RuneError {
